@@ -1,6 +1,10 @@
 (* Glue between text case files and the extracted model (trusted, small). *)
 open Gvcore
 
+(* the extracted code defines its own [string] (Coq's inductive strings); keep OCaml's *)
+type string = Stdlib.String.t
+module String = Stdlib.String
+
 (* Init.Byte.byte has 256 constant constructors x00..xff in order; OCaml represents the
    k-th constant constructor as the immediate integer k.  Checked at start-up against
    the extracted [bz]. *)
@@ -64,3 +68,25 @@ let self_check () =
 
 let split_ws (s : string) : string list =
   List.filter (fun x -> x <> "") (String.split_on_char ' ' s)
+
+(* Coq strings (inductive, one ascii = 8 booleans per character) <-> OCaml strings *)
+let char_of_ascii (a : Gvcore.ascii) : char =
+  match a with
+  | Ascii (b0, b1, b2, b3, b4, b5, b6, b7) ->
+    let v b k = if b then 1 lsl k else 0 in
+    Char.chr (v b0 0 + v b1 1 + v b2 2 + v b3 3 + v b4 4 + v b5 5 + v b6 6 + v b7 7)
+
+let ascii_of_char (c : char) : Gvcore.ascii =
+  let n = Char.code c in
+  let b k = (n lsr k) land 1 = 1 in
+  Ascii (b 0, b 1, b 2, b 3, b 4, b 5, b 6, b 7)
+
+let rec ostring_of_coq (s : Gvcore.string) : string =
+  match s with
+  | EmptyString -> ""
+  | String (a, r) -> String.make 1 (char_of_ascii a) ^ ostring_of_coq r
+
+let coq_of_ostring (s : string) : Gvcore.string =
+  let r = ref EmptyString in
+  for i = String.length s - 1 downto 0 do r := Gvcore.String (ascii_of_char s.[i], !r) done;
+  !r
